@@ -259,7 +259,7 @@ class Dec2(declib.Dec):
     def run_inplace(self, blk, dsize, capmode, salt=0):
         """block placed at the END of a buffer of LZ4_DECOMPRESS_INPLACE_BUFFER_SIZE(dsize) bytes,
         decoded to its start.  returns (ret, image[0,dsize))"""
-        size = dsize + (dsize >> 8) + 32
+        size = dsize + inplace_margin(dsize)
         if len(blk) > size:
             return None
         buf = Buf(size, data=fill(size - len(blk), salt) + blk)
@@ -268,6 +268,17 @@ class Dec2(declib.Dec):
         img = buf.bytes(dsize, 0)
         buf.free()
         return r, img
+
+_IPM = []
+def inplace_margin(n):
+    """LZ4_DECOMPRESS_INPLACE_MARGIN(n) of the working tree: (n >> 8) + base, both ends read by the translator"""
+    if not _IPM:
+        from vlib import gen_const
+        base, at64k = gen_const("INPLACE_MARGIN_BASE"), gen_const("INPLACE_MARGIN_64K")
+        if at64k - base != 256:
+            raise RuntimeError("LZ4_DECOMPRESS_INPLACE_MARGIN no longer has the shape (n >> 8) + c: update Proofs/InplaceMargin.v and this function")
+        _IPM.append(base)
+    return (n >> 8) + _IPM[0]
 
 # ---------------------------------------------------------------- model side, one-shot
 def model1(orc, fast, api, blk, srcsize, cap, target, hist, salt, extra_src=b""):
